@@ -66,6 +66,7 @@ let parse_op line =
   | "CLOSE" :: j :: _ -> OpClose (n_of_int (ios j))
   | "CANCEL" :: j :: _ -> OpCancel (n_of_int (ios j))
   | "FORGET" :: j :: _ -> OpForget (n_of_int (ios j))
+  | "PRUNE" :: _ -> OpPrune
   | "DDOWN" :: w :: _ -> OpDDown (n_of_int (ios w), List.map n_of_int (parse_ints ',' (kv toks "bo")))
   | "DUP" :: w :: _ -> OpDUp (n_of_int (ios w))
   | "SCHED" :: _ ->
@@ -228,7 +229,9 @@ let print_snapshot (s : sys) =
     s.s_procs
 
 let print_outputs outs =
-  List.iter (function ONewWorker w -> print_endline ("= W " ^ sn w) | OResp r -> print_endline ("= " ^ resp_s r) | ODown (w, m) -> Printf.printf "= DOWN %s %s\n" (sn w) (down_s m) | OUp (w, m) -> Printf.printf "= UP %s %s\n" (sn w) (up_s m) | _ -> ()) outs;
+  List.iter (function ONewWorker w -> print_endline ("= W " ^ sn w) | OResp r -> print_endline ("= " ^ resp_s r) | ODown (w, m) -> Printf.printf "= DOWN %s %s\n" (sn w) (down_s m) | OUp (w, m) -> Printf.printf "= UP %s %s\n" (sn w) (up_s m)
+    | OPrune (js, ws) -> let l x = if x = [] then "-" else String.concat "," (List.map sn x) in Printf.printf "= PRUNE jobs=%s workers=%s\n" (l js) (l ws)
+    | _ -> ()) outs;
   List.iter (function OEv e -> print_endline ("= EV " ^ event_s e) | _ -> ()) outs;
   let launches = List.filter_map (function OLaunch l -> Some l | _ -> None) outs in
   let launches = List.stable_sort (fun a b -> compare (int_of_n a.l_w) (int_of_n b.l_w)) launches in
@@ -371,6 +374,117 @@ let parse_event body =
   | [ "aborted"; ts ] -> Some (EvAborted (parse_tids ts))
   | _ -> None
 
+
+(* coverage tags: which branches of the model an operation exercises (pre-state + operation + outputs) *)
+let st_name = function
+  | Waiting _ -> "waiting" | Assigned _ -> "assigned" | Prefilled _ -> "prefilled" | Retracting _ -> "retracting"
+  | Running _ -> "running" | RunningMN _ -> "runningmn" | Finished -> "finished"
+
+(* messages appended to the down channels by a step *)
+let new_down (s : sys) (s' : sys) : dmsg list =
+  List.concat_map
+    (fun p' ->
+      let before = match find_proc s.s_procs p'.p_id with Some p -> List.length p.p_down | None -> 0 in
+      let rec drop n l = if n <= 0 then l else match l with [] -> [] | _ :: t -> drop (n - 1) t in
+      drop before p'.p_down)
+    s'.s_procs
+
+let tags_of (s : sys) (o : op) (outs : out list) (s' : sys) : string list =
+  let c = s.s_core in
+  let tg = ref [] in
+  let add t = if not (List.mem t !tg) then tg := t :: !tg in
+  let task_tag prefix id = match find_task c.c_tasks id with Some t -> add (prefix ^ st_name t.t_state) | None -> add (prefix ^ "unknown") in
+  (match o with
+  | OpLost (w, reason, _, _, _) -> (
+      add (if int_of_n reason = 1 || int_of_n reason = 2 then "lost-failure" else "lost-stop");
+      (match find_worker c.c_workers w with
+      | Some wk -> (
+          match wk.w_assign with
+          | Sn (a, p, _) ->
+              if p <> [] then add "lost-with-prefilled";
+              List.iter (fun id -> task_tag "lost-assigned-set-" id) a
+          | Mn (_, root) -> add (if root then "lost-mn-root" else "lost-mn-nonroot"))
+      | None -> ());
+      List.iter
+        (fun t ->
+          match t.t_state with
+          | Retracting w1 when w1 = w -> add (match find_redirect c.c_redirects t.t_id with Some _ -> "lost-retracting-redirected" | None -> "lost-retracting-noredirect")
+          | Running (w1, _) when w1 = w -> (
+              match t.t_climit with
+              | CNever -> add "lost-running-never-restart"
+              | CMax n -> if int_of_n t.t_crash + 1 >= int_of_n n then add "lost-running-crash-limit" else add "lost-running-requeue"
+              | CUnl -> add "lost-running-requeue")
+          | _ -> ())
+        c.c_tasks)
+  | OpDUp w -> (
+      match find_proc s.s_procs w with
+      | Some p -> (
+          match p.p_up with
+          | UUpdates us :: _ ->
+              List.iter
+                (function
+                  | UFinished t -> task_tag "up-finished-" t
+                  | UFailed (t, _) -> task_tag "up-failed-" t
+                  | URunning (t, _) -> task_tag "up-running-" t
+                  | URunningPrefilled (t, _) -> task_tag "up-runprefilled-" t
+                  | UReject (t, rv) -> task_tag (match rv with Some _ -> "up-reject-soft-" | None -> "up-reject-hard-") t
+                  | UEnable _ -> add "up-enable")
+                us
+          | URetractResponse ids :: _ ->
+              List.iter
+                (fun id ->
+                  match find_task c.c_tasks id with
+                  | Some t -> (
+                      match t.t_state with
+                      | Retracting w1 when w1 = w -> add (match find_redirect c.c_redirects id with Some _ -> "rr-redirect" | None -> "rr-requeue")
+                      | st -> add ("rr-stale-" ^ st_name st))
+                  | None -> add "rr-unknown")
+                ids
+          | [] -> ())
+      | None -> ())
+  | OpCancel j ->
+      List.iter (fun t -> if fst t.t_id = j then add ("cancel-" ^ st_name t.t_state)) c.c_tasks;
+      List.iter (fun t -> if fst t.t_id = j && t.t_consumers <> [] then add "cancel-with-consumers") c.c_tasks
+  | OpSubmit (job, ids, entries, _, _, _, _, mf) ->
+      add (match job with Some _ -> "submit-into-open" | None -> "submit-new");
+      if ids <> [] then add "submit-explicit-ids";
+      if entries <> None then add "submit-entries";
+      if mf <> None then add "submit-maxfails"
+  | OpSubmitG (job, _, ts, _) ->
+      add (match job with Some _ -> "graph-into-open" | None -> "graph-new");
+      let own = List.map (fun g -> let ((((id, _), _), _), _) = g in id) ts in
+      List.iter (fun g -> let (_, deps) = g in if deps <> [] then add "graph-deps"; if List.exists (fun d -> not (List.mem d own)) deps then add "graph-dep-on-earlier-submit") ts
+  | OpSched _ ->
+      List.iter
+        (function
+          | DRetract _ -> add "sched-retract"
+          | DCompute cts ->
+              List.iter (fun ct -> if ct.ct_rv = None then add "sched-prefill" else if ct.ct_nodes <> [] then add "sched-mn" else add "sched-assign") cts
+          | _ -> ())
+        (new_down s s');
+      if List.length s'.s_core.c_redirects > List.length c.c_redirects then add "sched-redirect-recorded"
+  | OpEnd (_, _, how) -> add (match how with EndOk -> "end-ok" | EndFail -> "end-fail" | EndFollowStop -> "end-follow-stop")
+  | OpForget _ -> if List.length s'.s_hq.h_jobs < List.length s.s_hq.h_jobs then add "forget-done"
+  | OpPrune -> add "prune"; if List.exists (fun j -> j.j_open && not (List.exists (fun (_, v) -> v = JW || v = JR) j.j_tasks)) s.s_hq.h_jobs then add "prune-with-idle-open-job"
+  | OpTimer -> add "timer"
+  | _ -> ());
+  List.iter
+    (function
+      | OEv (EvAborted _) -> add "ev-aborted"
+      | OEv (EvFailed (_, FCrashLimit)) -> add "ev-failed-crashlimit"
+      | OEv (EvFailed (_, FNeverRestart)) -> add "ev-failed-neverrestart"
+      | OEv (EvFailed (_, FLaunch)) -> add "ev-failed-launch"
+      | OEv (EvFailed (_, FTimeLimit)) -> add "ev-failed-timelimit"
+      | OEv (EvCompleted _) -> add "ev-completed"
+      | ODown (_, DCancel _) -> add "down-cancel"
+      | _ -> ())
+    outs;
+  (* max-fails: a failure and an abort of further tasks in the same step *)
+  if List.exists (function OEv (EvFailed _) -> true | _ -> false) outs && List.exists (function DCancel _ -> true | _ -> false) (new_down s s') then add "maxfails-cancels-running";
+  if List.exists (function OEv (EvFailed _) -> true | _ -> false) outs && List.exists (function OEv (EvAborted _) -> true | _ -> false) outs then add "failed-with-aborts";
+  (match o with OpLost _ -> if List.exists (function DRetract _ -> true | _ -> false) (new_down s s') then add "lost-causes-retract" | _ -> ());
+  !tg
+
 let process_trace header lines =
   print_endline header;
   let state = ref None in
@@ -394,6 +508,7 @@ let process_trace header lines =
   let stepno = ref 0 in
   let tainted = ref [] in
   let excess = ref [] in
+  let covtags = ref [] in
   let cur_resp = ref "" in
   let check_state () =
     match (!state, !icore) with
@@ -477,6 +592,7 @@ let process_trace header lines =
                   (match o with OpLost _ | OpCancel _ | OpEnd (_, _, (EndFail | EndFollowStop)) | OpFailNext _ | OpTimer -> nontrivial := true | _ -> ());
                   match step s o with
                   | Ok (s', outs) ->
+                      List.iter (fun t -> if not (List.mem t !covtags) then covtags := t :: !covtags) (tags_of s o (snd (s', outs)) s');
                       state := Some s';
                       print_outputs outs;
                       print_snapshot s'
@@ -570,6 +686,7 @@ let process_trace header lines =
     if deps_respected [] [] [] tr' then add_mon "M C03 KNOWN F12-dependency-on-dead-task a task submitted with a dependency on an already failed/cancelled task was started"
     else add_mon "M C03 FAIL dependency-order-violated"
   end;
+  if not (journal_dep_closed [] [] tr) then add_mon "M C03 FAIL journal-prefix-would-restart-dependent-of-dead-task";
   if not (instances_increase [] tr) then add_mon "M C06 FAIL instance-id-not-increasing";
   if not (no_start_after_giveup [] tr) then begin
     add_mon "M C06 FAIL start-after-retract-ack-or-cancel";
@@ -581,6 +698,7 @@ let process_trace header lines =
   List.iter print_endline (List.rev !monitors);
   if !nontrivial then print_endline "T nontrivial";
   if !f12 then print_endline "T dep-on-dead";
+  List.iter (fun t -> print_endline ("T " ^ t)) (List.sort compare !covtags);
   print_endline "END"
 
 let () =
